@@ -1266,7 +1266,9 @@ std::string builders_op(std::vector<std::string> const &t)
          " id1=" + show(mvals(fm::matrix::identity<smat<1, 1>>())) + " id2=" + show(mvals(fm::matrix::identity<smat<2, 2>>())) +
          " id3=" + show(mvals(fm::matrix::identity<smat<3, 3>>())) + " id4=" + show(mvals(fm::matrix::identity<smat<4, 4>>())) +
          " vi=" + show(vals(vi)) + " mi23=" + show(mvals(mi(fm::matrix::index<2, 3>{}))) + " mi32=" + show(mvals(mi(fm::matrix::index<3, 2>{}))) +
-         " mi34=" + show(mvals(mi(fm::matrix::index<3, 4>{}))) + " mi41=" + show(mvals(mi(fm::matrix::index<4, 1>{})));
+         " mi34=" + show(mvals(mi(fm::matrix::index<3, 4>{}))) + " mi41=" + show(mvals(mi(fm::matrix::index<4, 1>{}))) +
+         // matrix::row + the row constructor, called directly
+         " rows=" + show(mvals(smat<2, 3>{fm::matrix::row(*x, *y, *z), fm::matrix::row(*a, *b, *d)}));
 }
 
 std::string bits_op(std::vector<std::string> const &t)
